@@ -1,10 +1,11 @@
 import Amgcl.Proofs.CApiView
 import Amgcl.Proofs.CApiHandles
+import Amgcl.Proofs.CApiParams
 /-!
 # C20 — the C interface (0- and 1-based) gives the C++ results: the Lean part
 
-Only property theorems live here (models: `Amgcl/Model/CApi.lean`; helper lemmas: `Amgcl/Proofs/CApiView.lean`,
-`Amgcl/Proofs/CApiHandles.lean`).  The bulk of C20 — bitwise equality of the C handle API with the C++ run-time
+Only property theorems live here (models: `Amgcl/Model/CApi.lean`, `Amgcl/Model/CApiParams.lean`; helper lemmas:
+`Amgcl/Proofs/CApiView.lean`, `Amgcl/Proofs/CApiHandles.lean`, `Amgcl/Proofs/CApiParams.lean`).  The bulk of C20 — bitwise equality of the C handle API with the C++ run-time
 interface — is implementation-vs-implementation equivalence and is *observed* by `harness/h_capi.cpp`, not
 proved (level `translation_validation`).  What is proved, for all inputs:
 
@@ -22,6 +23,13 @@ proved (level `translation_validation`).  What is proved, for all inputs:
   foreign / unknown handle exactly for the `Balanced` scripts; an error is raised at the *first* offending
   call; any call on a handle after its destroy is (at the latest) that error; a balanced script that destroys
   everything it creates leaves nothing alive.
+
+* `params_last_write_wins` and companions — the CONTENT of a parameter handle after any history of
+  `amgcl_params_seti/setf/sets/read_json` calls (`put` = overwrite the first match or append, `read_json` =
+  replace): the value a reader sees at a path is the LAST one written to it (by a setter after the last file, or
+  by the last file), nothing written before a `read_json` survives it, no node ever has two children with the same
+  key, and writes to one handle leave every other handle alone.  The model is tied to the code by exact
+  correspondence on the tree read back from the real handle (`capi_params`).
 
 What the C API guarantees (and the model assumes, read off lib/amgcl.cpp; exercised by the harness under
 ASan/LSan): `*_create` returns a fresh object and dereferences its parameter handle only during the call (the
@@ -229,5 +237,114 @@ example : AllDestroyed [.paramsCreate, .objCreate true (some 0), .destroy .param
   rcases this with rfl | rfl <;> decide
 
 end handles
+
+section params
+open Amgcl.Params
+
+/-- **Last write wins.**  Whatever the handle held (`p`) and whatever was written before (`pre`: setters, files,
+the same path any number of times): after `amgcl_params_set*(prm, path, v)` followed by writes that spare `path`
+(setters for other paths — ancestors and descendants of `path` included), a reader of the handle sees `v` at
+`path`.  So re-tuning a handle that was already used for a solver takes effect in the next `*_create`. -/
+theorem params_last_write_wins (p : PTree) (pre post : List PWrite) (path : List String) (v : String)
+    (hs : ∀ w ∈ post, w.Spares path) :
+    (runWrites p (pre ++ PWrite.set path v :: post)).getPath? path = some v := by
+  rw [runWrites_append, runWrites_cons]
+  exact getPath?_runWrites_spared _ path v post (PTree.getPath?_putPath_same _ path v) hs
+
+example : (runWrites PTree.empty [.set ["solver", "tol"] "1e-06", .set ["solver", "type"] "cg",
+      .set ["solver", "tol"] "0.01", .set ["solver"] "x", .set ["solver", "maxiter"] "3"]).getPath? ["solver", "tol"]
+    = some "0.01" :=
+  params_last_write_wins PTree.empty [.set ["solver", "tol"] "1e-06", .set ["solver", "type"] "cg"]
+    [.set ["solver"] "x", .set ["solver", "maxiter"] "3"] ["solver", "tol"] "0.01"
+    (by intro w hw; simp only [List.mem_cons, List.not_mem_nil, or_false] at hw
+        rcases hw with rfl | rfl <;> simp [PWrite.Spares])
+
+/-- **A setter overrides the file.**  A value read by `amgcl_params_read_json` and then written by a setter is
+the setter's (a special case of `params_last_write_wins`: the file is one of the earlier writes). -/
+theorem params_setter_overrides_file (p : PTree) (pre : List PWrite) (es : List (List String × String))
+    (post : List PWrite) (path : List String) (v : String) (hs : ∀ w ∈ post, w.Spares path) :
+    (runWrites p (pre ++ PWrite.file es :: PWrite.set path v :: post)).getPath? path = some v := by
+  have := params_last_write_wins p (pre ++ [PWrite.file es]) post path v hs
+  simpa [List.append_assoc] using this
+
+/-- **A value of the file is seen unless overridden.**  The last entry of the file for `path` is what a reader
+sees after setters for other paths. -/
+theorem params_file_value (p : PTree) (pre : List PWrite) (es₁ es₂ : List (List String × String))
+    (post : List PWrite) (path : List String) (v : String)
+    (h₂ : ∀ e ∈ es₂, e.1 ≠ path) (hs : ∀ w ∈ post, w.Spares path) :
+    (runWrites p (pre ++ PWrite.file (es₁ ++ (path, v) :: es₂) :: post)).getPath? path = some v := by
+  rw [runWrites_append, runWrites_cons]
+  refine getPath?_runWrites_spared _ path v post ?_ hs
+  show (putAll PTree.empty (es₁ ++ (path, v) :: es₂)).getPath? path = some v
+  rw [putAll_append, putAll_cons, ← runWrites_sets]
+  refine getPath?_runWrites_spared _ path v _ (PTree.getPath?_putPath_same _ path v) ?_
+  intro w hw
+  obtain ⟨e, he, rfl⟩ := List.mem_map.1 hw
+  exact h₂ e he
+
+example : (runWrites PTree.empty [.set ["solver", "tol"] "0.5",
+      .file [(["solver", "tol"], "1e-06"), (["solver", "type"], "bicgstab")],
+      .set ["solver", "type"] "cg"]).getPath? ["solver", "tol"] = some "1e-06" :=
+  params_file_value PTree.empty [.set ["solver", "tol"] "0.5"] [] [(["solver", "type"], "bicgstab")]
+    [.set ["solver", "type"] "cg"] ["solver", "tol"] "1e-06"
+    (by intro e he; simp only [List.mem_cons, List.not_mem_nil, or_false] at he; subst he; simp)
+    (by intro w hw; simp only [List.mem_cons, List.not_mem_nil, or_false] at hw; subst hw; simp [PWrite.Spares])
+
+/-- **`read_json` replaces.**  Nothing the handle held or was told before a `read_json` survives it: the tree
+after the file and later writes does not depend on the earlier history. -/
+theorem params_file_replaces (p q : PTree) (pre pre' : List PWrite) (es : List (List String × String))
+    (post : List PWrite) :
+    runWrites p (pre ++ PWrite.file es :: post) = runWrites q (pre' ++ PWrite.file es :: post) := by
+  simp only [runWrites_append, runWrites_cons]
+  rfl
+
+/-- **No duplicate keys.**  Starting from `amgcl_params_create` (the empty tree), no history of setter /
+`read_json` calls produces a node with two children of the same key — every value ever stored is reachable by
+`get`, none is shadowed by an older sibling. -/
+theorem params_no_duplicate_keys (ws : List PWrite) : NoDup (runWrites PTree.empty ws) := by
+  suffices h : ∀ (p : PTree), NoDup p → NoDup (runWrites p ws) from h _ noDup_empty
+  induction ws with
+  | nil => intro p hp; exact hp
+  | cons w ws ih => intro p hp; rw [runWrites_cons]; exact ih _ (noDup_apply p w hp)
+
+/-- in particular the top level of a handle never lists a key twice (`check_params` iterates over it) -/
+theorem params_top_keys_nodup (ws : List PWrite) : (runWrites PTree.empty ws).keys.Nodup := by
+  have h := params_no_duplicate_keys ws
+  generalize runWrites PTree.empty ws = t at h
+  cases h with
+  | node d ks hk _ => exact hk
+
+/-- **Handles are independent.**  A write to (or the destruction of) handle `h` leaves the content of every
+other handle as it was. -/
+theorem params_handles_independent (st st' : PState) (c : PCall) (h' : Nat) (hstep : c.step st = some st')
+    (hh : ∀ h w, c = .write h w → h' ≠ h) (hd : ∀ h, c = .destroy h → h' ≠ h) (hlt : h' < st.length) :
+    st'[h']? = st[h']? := by
+  cases c with
+  | create =>
+    simp only [PCall.step, Option.some.injEq] at hstep
+    subst hstep
+    rw [List.getElem?_append_left hlt]
+  | write h w =>
+    have hne := hh h w rfl
+    simp only [PCall.step] at hstep
+    split at hstep
+    · simp only [Option.some.injEq] at hstep
+      subst hstep
+      rw [List.getElem?_set_ne (Ne.symm hne)]
+    · cases hstep
+  | destroy h =>
+    have hne := hd h rfl
+    simp only [PCall.step] at hstep
+    split at hstep
+    · simp only [Option.some.injEq] at hstep
+      subst hstep
+      rw [List.getElem?_set_ne (Ne.symm hne)]
+    · cases hstep
+
+example : (runCalls [] [.create, .create, .write 0 (.set ["a"] "1"), .write 1 (.set ["a"] "2"),
+    .write 0 (.set ["a"] "3"), .destroy 1]).map (fun st => st.map (fun o => o.map (fun t => t.getPath? ["a"])))
+    = some [some (some "3"), none] := by decide
+
+end params
 
 end Amgcl.C20
